@@ -186,6 +186,15 @@ fn case_fn(case: &mut Case, base: &Path) -> CaseResult {
                 4 => {
                     gp.op_files[i].1 = format!("#import Nothing from \"./does-not-exist.graphql\"\n{}", gp.op_files[i].1);
                     injected.push(Injected { file: rel, kind: "operation", stage: Stage::Check, what: "import of a missing file" });
+                    // half of the time a second file gets an import fault of its own (every offending file must
+                    // be named, not only the first one the resolver meets)
+                    if gp.op_files.len() >= 2 && case.ch.flip() {
+                        let j = (i + 1 + case.ch.below(gp.op_files.len() - 1)) % gp.op_files.len();
+                        if !injected.iter().any(|x| x.file == gp.op_files[j].0) {
+                            gp.op_files[j].1 = format!("#import AlsoNothing from \"./also-missing.graphql\"\n{}", gp.op_files[j].1);
+                            injected.push(Injected { file: gp.op_files[j].0.clone(), kind: "operation", stage: Stage::Check, what: "import of a missing file (second file)" });
+                        }
+                    }
                 }
                 5 => {
                     if format == "rdjson" && !allow_syntax_rdjson {
